@@ -291,15 +291,41 @@ func c20GenStored(r *Rng, s *c20Scn, steps []c20Step) {
 					}
 					if !dup {
 						st.Crds = append(st.Crds, c)
-						for i, n := 0, r.Intn(3); i < n; i++ {
+						for i, n := 0, r.Intn(4); i < n; i++ {
 							st.Crs = append(st.Crs, c20Cr{Crd: c.Name, Name: fmt.Sprintf("cr-%d", i), Payload: r.Intn(5)})
 						}
 					}
 				case o.T == "whc" && stp.T == "whcs" && r.Chance(p, 4):
 					w := c20Whc{Kind: o.Whc.Kind, Name: c20WhcName(o.Whc), Hooks: []c20Hook{}}
-					for j, n := 0, r.Intn(3); j < n; j++ {
+					for j, n := 0, r.Intn(4); j < n; j++ {
 						w.Hooks = append(w.Hooks, c20Hook{Name: fmt.Sprintf("h%d.crossplane.io", j+r.Intn(2)), Bundle: Pick(r, []*c20Blob{nil, {T: "j", N: 8}, c20CACert(9)}), Svc: c20Svc{Name: "old", NS: "old", Port: 443}})
 					}
+					// entries the shipped manifest does not have (left by another Crossplane version, added by a third party),
+					// with a stale bundle / another service, in front of or behind the others; the others in another order
+					if r.Chance(1, 2) {
+						extra := c20Hook{Name: Pick(r, []string{"legacy.crossplane.io", "thirdparty.example.org", "h9.crossplane.io"}),
+							Bundle: Pick(r, []*c20Blob{nil, {T: "j", N: 8}, c20CACert(9)}), Svc: Pick(r, []c20Svc{{Name: "old", NS: "old", Port: 443}, {Name: "theirs", NS: "kube-system", Port: 8443}})}
+						if r.Bool() {
+							w.Hooks = append([]c20Hook{extra}, w.Hooks...)
+						} else {
+							w.Hooks = append(w.Hooks, extra)
+						}
+					}
+					if len(w.Hooks) > 1 && r.Chance(1, 3) {
+						for a, b := 0, len(w.Hooks)-1; a < b; a, b = a+1, b-1 {
+							w.Hooks[a], w.Hooks[b] = w.Hooks[b], w.Hooks[a]
+						}
+					}
+					// (no two entries of one name: the API server rejects that)
+					seenH := map[string]bool{}
+					uniq := []c20Hook{}
+					for _, h := range w.Hooks {
+						if !seenH[h.Name] {
+							seenH[h.Name] = true
+							uniq = append(uniq, h)
+						}
+					}
+					w.Hooks = uniq
 					if r.Chance(1, 3) {
 						w.Extra = 1 + r.Intn(3)
 					}
@@ -370,8 +396,8 @@ func c20GenStored(r *Rng, s *c20Scn, steps []c20Step) {
 				}
 				names[kind+nm] = true
 				pk := c20Pkg{Kind: kind, Name: nm, Raw: img}
-				if r.Chance(1, 3) {
-					pk.Extra = 1 + r.Intn(4)
+				if r.Chance(1, 2) {
+					pk.Extra = 1 + r.Intn(4) // an operator has set every field the installer does not declare
 				}
 				st.Pkgs = append(st.Pkgs, pk)
 			}
